@@ -390,7 +390,7 @@ pub fn run(ctx: &Ctx, rep: &mut Report) {
     let len: u32 = if ctx.thorough() { 5 } else { 3 };
     let n_a = 6 * 2 * 8u64.pow(len);
     let n_b = if ctx.thorough() { 240 } else { 36 };
-    let n_c = ctx.universes(1500, 60000);
+    let n_c = ctx.universes(6000, 200000);
     let total = n_a + n_b + n_c;
     for uni in ctx.my_universes(total) {
         rep.begin_universe(uni);
